@@ -3,9 +3,9 @@
 package main
 
 import (
-	"go/types"
 	"flag"
 	"fmt"
+	"go/types"
 	"os"
 	"runtime/debug"
 	"sort"
@@ -162,11 +162,18 @@ func main() {
 				continue
 			}
 			rc := c.finish(def.meta, *verif, t0, seed, variants)
+			// The self-check says something about the checker, not about /repo: a discrepancy is
+			// recorded (here and in the evidence) but does not change the verdict on the tree.
+			nv, nbad := 0, 0
 			for _, v := range variants {
+				nv++
 				if !v.OK {
-					fmt.Printf("CHECKER-ERROR self-check variant %s (%s): expected %s, got %s\n", v.Name, v.Kind, v.Expected, v.Got)
-					rc = 2
+					nbad++
+					fmt.Printf("SELF-CHECK-DISCREPANCY variant %s (%s): expected %s, got %s\n", v.Name, v.Kind, v.Expected, v.Got)
 				}
+			}
+			if nv > 0 {
+				fmt.Printf("self-check: %d variant(s) of the current source analysed (breaking ones reported, refactorings silent), %d discrepancy(ies)\n", nv, nbad)
 			}
 			if rc > code {
 				code = rc
